@@ -560,3 +560,54 @@ def filter_hwcid(vc):
                      "%r" % (desc.get(0xC4),))
     vc.ground("BGM12X-id-as-published", H.HWCID_MAP["BGM12X"] == 0xBE and H.HWCID_MAP.get("BGM12X_DETUNED") == 0xB6)
     vc.cover("filters")
+
+
+# ---------------------------------------------------------------------------------------
+# "unknown tag types ... are rejected instead of being converted with loss", at the level of the importer (the table itself
+# is C13/tables): EVERY type byte that is neither a known tag type nor a group marker (FE start, FF end), as the only data
+# group, as a group after a mapped section and as a group before one, makes bf2_import raise a BF3 format error - it is
+# never skipped and never folded into a neighbouring section; and the two markers never count as data.
+KNOWN_TYPES = [0x34] + list(range(0x35, 0x39)) + list(range(0x39, 0x3D)) + [0x3D, 0x3E] + list(range(0x40, 0x48)) + [0x48] + \
+    list(range(0x70, 0x74)) + [0x83] + list(range(0x84, 0xA4))
+
+
+@proof("C13/bf2_import.unknown-tag-types-rejected", functions=[(MOD, "Bf3File.bf2_import"), (MOD, "Bf3File.parse_bf2_file"),
+                                                               (MOD, "is_known_tagtype")],
+       family=lambda seed, tier: [dict(lo=lo, hi=min(lo + 32, 256)) for lo in range(0, 256, 32)], bounded_only=True)
+def unknown_types(vc):
+    import io
+    from spec import bf2
+    M = vc.module(MOD)
+    E = vc.module("bec2format.error")
+    main = bytes(range(45))
+
+    def lines(groups):
+        out, ndx = ["##Creator: t\n", "##Bf3Update: 1\n"], 0
+        for tt in groups:
+            fwtag = bytes([len(main) + 2]) + (0).to_bytes(2, "big") + main
+            out.append(bf2.data_line(ndx, tt, fwtag)[0])
+            out.append(bf2.data_line(ndx + 1, 0xFF, b"")[0])
+            ndx += 2
+        return "".join(out)
+
+    ok = vc.call(M.Bf3File.bf2_import, io.StringIO(lines([0x84])))
+    vc.prove("a-main-firmware-section-alone-imports", ok.returned and len(ok.value.components) == 1
+             and ok.value.components[0].blob == bf2.data_line(0, 0x84, bytes([len(main) + 2]) + bytes(2) + main)[1], repr(ok.exc))
+    bad = []
+    for tt in range(vc._get("lo"), vc._get("hi")):
+        if tt in KNOWN_TYPES or tt in (0xFE, 0xFF):
+            continue
+        for label, groups in (("only", [tt]), ("after-a-section", [0x84, tt]), ("before-a-section", [tt, 0x84])):
+            vc.tick()
+            out = vc.call(M.Bf3File.bf2_import, io.StringIO(lines(groups)))
+            if out.returned:
+                bad.append((hex(tt), label, "converted: %d component(s), %s bytes" % (len(out.value.components),
+                                                                                      [len(c.blob) for c in out.value.components])))
+            elif not isinstance(out.exc, E.Bf3FileFormatError):
+                bad.append((hex(tt), label, repr(out.exc)))
+    vc.prove("unknown-tag-type=>Bf3FileFormatError(never-skipped,never-merged)", not bad, repr(bad[:4]))
+    # the markers themselves: a start marker before the group changes nothing
+    txt = "##Creator: t\n##Bf3Update: 1\n" + bf2.data_line(0, 0xFE, b"")[0] + lines([0x84]).split("\n", 2)[2]
+    out = vc.call(M.Bf3File.bf2_import, io.StringIO(txt))
+    vc.prove("start-marker-line-carries-no-data", out.returned and ok.returned and len(out.value.components) == 1
+             and out.value.components[0].blob[4:] == ok.value.components[0].blob[4:], repr(out.exc))
